@@ -371,6 +371,20 @@ def check_C17(tier, seed, t0):
         "block size k = 1 is a recorded finding (the inner generalized solver rejects ncv <= nev)"])
 
 
+def check_C20(tier, seed, t0):
+    descs = ["mode=mt;rounds=%d;seed=%d" % (n_of(tier, 8, 24), seed * 10 + i) for i in range(n_of(tier, 2, 8))]
+    own = ["ConcurrentTraceIdentical", "ConcurrentResultsIdentical", "Abort", "UnknownRow"]
+    models = [("Threads.tla", "Threads_own.cfg", 2), ("Threads.tla", "Threads_sharedprod.cfg", 2)]
+    neg = [("Threads.tla", "Threads_sharedsolve.cfg", 2)]
+    return ir_flow("C20", tier, seed, descs, own, models, COMMON_ASSUME[:1] + [
+        "design model: all interleavings of 3 instances over the location map of the code's mutable state; own operators and one shared product wrapper are conflict free, "
+        "a shared shift-solve wrapper is a conflict (negative control)",
+        "runs: 2/4/8/16 threads, private operators or one shared (previously unused) Dense/Sparse Sym/Gen product wrapper, generic and breakdown-heavy (low rank) jobs, "
+        "randomised start; every job's hook-event stream digest and result digest must equal those of the same job run alone",
+        "formal data-race freedom (a race that writes equal values) is not decided by value traces; the thorough tier additionally runs the driver under ThreadSanitizer"], t0,
+        trace_module="TraceAux.tla", trace_cfg="TraceAux.cfg", driver_of=lambda d: "drv_mt", neg_models=neg)
+
+
 def check_C10(tier, seed, t0):
     parts = 8
     descs = ["mode=exact;stride4=%d;part=%d;parts=%d" % (41 if tier == "quick" else 3, i, parts) for i in range(parts)]
@@ -439,7 +453,7 @@ def check_C14(tier, seed, t0):
         level="fault_enumeration" if False else "model_checking")
 
 
-CHECKS = {"C15": check_C15, "C16": check_C16, "C17": check_C17, "C11": check_C11, "C08": check_C08, "C09": check_C09, "C10": check_C10, "C12": check_C12, "C03": check_C03, "C04": check_C04, "C06": check_C06, "C14": check_C14, "C18": check_C18, "C19": check_C19, "C05": check_C05, "C01": check_C01, "C02": check_C02, "C07": check_C07, "C13": check_C13}
+CHECKS = {"C20": check_C20, "C15": check_C15, "C16": check_C16, "C17": check_C17, "C11": check_C11, "C08": check_C08, "C09": check_C09, "C10": check_C10, "C12": check_C12, "C03": check_C03, "C04": check_C04, "C06": check_C06, "C14": check_C14, "C18": check_C18, "C19": check_C19, "C05": check_C05, "C01": check_C01, "C02": check_C02, "C07": check_C07, "C13": check_C13}
 
 
 def main():
